@@ -1,6 +1,6 @@
 """Shared analyses of the control code around the tables: cleanup_for_stop (collapse phase),
 generate_internal (header / loop / STOP / FRAME back-patch), get_valid_opcodes, weighted_choice."""
-from values import Agg, Box_, Bytes, Opaque, PathEnd, Ref, Sym, Unanalysable, bounds, err, is_sym, ok, unit
+from values import Agg, Box_, Bytes, Opaque, PathEnd, Ref, Sym, Unanalysable, bounds, err, is_none, is_some, is_sym, none, ok, some, unit
 import absgen as G
 import harness as H
 import models as M
@@ -15,7 +15,7 @@ class Step:
 
 class CleanupLeaf:
     __slots__ = ("steps", "final", "final_open", "end", "panics", "version", "bound_hit", "notes", "atoms", "memo_events",
-                 "pre")
+                 "pre", "extra_read", "extra_changed")
 
 
 def cleanup_leaves(env, version=None):
@@ -70,6 +70,8 @@ def cleanup_leaves(env, version=None):
         lf.version = (ver.chosen[2] if ver.chosen else None) if isinstance(ver, G.LazyEnum) else ver.vname
         lf.atoms = list(run.atom_log)
         lf.memo_events = [e for e in run.events if e[0].startswith("memo_")]
+        lf.extra_read = ["state." + n for n in h.extra_scratch_read_at_entry(lf.atoms, h.out.writes)] + h.extra_gen_read_at_entry(lf.atoms, h.out.writes)
+        lf.extra_changed = h.extra_state_changed() + h.extra_gen_changed()
         out.append(lf)
     return out
 
@@ -134,12 +136,22 @@ def generate_internal_leaves(env, version, max_loop=2):
             return v
 
         def st_choice(I, k, a):
-            I.run.event("call", "weighted_choice", a[1], getattr(a[1], "empty", None))
-            if isinstance(a[1], ValidOps):
-                return Chosen(a[1])
-            return Opaque("chosen_from_other")
+            v = a[1]
+            if isinstance(v, Ref):          # the list may be passed by reference (&[OpcodeKind] / &Vec<OpcodeKind>)
+                v = I.load(v)
+            ret_opt = str(prog.bodies[k_choice].get("ret_ty", "")).startswith("std::option::Option<")
+            if ret_opt and isinstance(v, ValidOps):
+                # Option-returning form: None exactly for the empty list (checked on weighted_choice itself, R01.a)
+                emp = v.is_empty(I)
+                I.run.event("call", "weighted_choice", v, False)
+                return none() if emp else some(Chosen(v))
+            I.run.event("call", "weighted_choice", v, getattr(v, "empty", None))
+            if isinstance(v, ValidOps):
+                return Chosen(v)
+            return some(Opaque("chosen_from_other")) if ret_opt else Opaque("chosen_from_other")
 
         def st_emit(I, k, a):
+            I.run.event("extras_rewritten", tuple(h.extra_gen_rewritten()))
             I.run.event("call", "emit_and_process", a[1], h.out.cur_len, len(h.out.writes))
             # emit_and_process appends (C11 P3: exactly one opcode) and may fail
             n = Sym("emitted_len", (), "usize", 1, 1 << 20, attrs={"name": "emitted_len"})
@@ -149,6 +161,7 @@ def generate_internal_leaves(env, version, max_loop=2):
             return ok(unit()) if c == 0 else err(Opaque("eyre::Report"))
 
         def st_clean(I, k, a):
+            I.run.event("extras_rewritten", tuple(h.extra_gen_rewritten()))
             I.run.event("call", "cleanup_for_stop", h.out.cur_len, len(h.out.writes))
             n = Sym("cleanup_len", (), "usize", 0, 1 << 20, attrs={"name": "cleanup_len"})
             h.out.writes.append(("opaque_cleanup",))
@@ -218,8 +231,26 @@ def weighted_choice_leaves(env, names):
         h = ctx.make_generator(depth_bound=2)
         vec = M.VecObj([ctx.opcode_value(n) for n in names], "opcodes::OpcodeKind")
         src = G.AbsSource(prog)
-        r = I.call(key, [h.ref(), vec, Ref(Box_(src, "source"), ())])
+        by_ref = str(prog.bodies[key]["locals"][2].get("ty", "")).startswith("&")
+        r = I.call(key, [h.ref(), Ref(Box_(vec, "opcodes"), ()) if by_ref else vec, Ref(Box_(src, "source"), ())])
+        if str(prog.bodies[key].get("ret_ty", "")).startswith("std::option::Option<"):
+            # Option-returning form: None is allowed exactly for the empty list; callers see the payload
+            if is_none(r):
+                r = Opaque("none-for-empty") if not names else Opaque("none-for-nonempty")
+            elif is_some(r):
+                r = r.fields[0]
         return (I, r)
     for run, res, pe in explore(one, max_runs=400):
         out.append((res, pe, list(run.panics)))
     return out
+
+
+def out_cleared_before_use(g):
+    """True when the leaf clears Generator.output before anything reads, extends, patches or copies it (entry state unknown)."""
+    ic = iu = None
+    for i, e in enumerate(g.events):
+        if ic is None and e[0] == "out_clear":
+            ic = i
+        if iu is None and (e[0] in ("out", "out_len_read", "out_truncate", "out_patch", "out_clone") or e[0] == "call"):
+            iu = i
+    return ic is not None and (iu is None or ic < iu)
